@@ -165,7 +165,18 @@ def ls_rows(spec):
         for sp in ('spsr_svc', 'spsr_abt', 'spsr_und', 'spsr_irq', 'spsr_fiq', 'spsr_mon'):
             if rng.random() < 0.5:
                 setattr(r, sp, getattr(r, sp) ^ (1 << 9))
-    return L.run_rows(ID, spec, LS_FAMILY, ctxs=[('v7-pmsa-r', 'off'), ('v6-pmsa-sec', 'off'), ('v7-vmsa-virt', 'off'), ('v5-pmsa', 'off')],
+        if ctx.prot == 'mmu-ld':
+            # long-descriptor tables for the PL1&0 AND the Hyp regime: in Hyp mode the alignment policy is HSCTLR.A's, not
+            # SCTLR.A's - both are drawn, independently; addresses inside the Normal-memory windows of the layout
+            r.hsctlr.a = 1 if rng.random() < 0.3 else 0
+            r.sctlr.a = 1 if rng.random() < 0.5 else 0
+            for n in range(13):
+                if rng.random() < 0.7:
+                    r.set(n, rng.choice([0x100, 0x3000, 0x8000, 0x9000, 0x200100, 0x201000, 0x3FFFF0, 0x2000F0]) + rng.randrange(8))
+            desc['hsctlr_a'] = r.hsctlr.a
+            desc['sctlr_a'] = r.sctlr.a
+    return L.run_rows(ID, spec, LS_FAMILY, ctxs=[('v7-pmsa-r', 'off'), ('v6-pmsa-sec', 'off'), ('v7-vmsa-virt', 'off'), ('v5-pmsa', 'off'),
+                                                 ('v7-vmsa-virt', 'mmu-ld')],
                       regs_fn=lambda rng: [scen.reg_value(rng) for _ in range(15)], prep_kw=lambda rng: dict(e=rng.randrange(2)),
                       after=after, solve_addr=0.15)
 
